@@ -352,6 +352,16 @@ pub fn run(cfg: &Cfg) -> i32 {
                     }));
                 }
             }
+            {
+                let cases = cfg.t(400, 6000);
+                let seed = mix(cfg.seed ^ (0xc02_300 + <$K>::NAME.len() as u64 * 31 + <$K>::NAME.as_bytes()[1] as u64));
+                names.push(format!("wide-eval/{}", <$K>::NAME));
+                jobs.push(Box::new(move |w: &mut dyn Write| {
+                    let mut rep = Report::default();
+                    crate::c02w::wide_bool::<$K>(seed, cases, &mut rep);
+                    rep.emit(w);
+                }));
+            }
             for (i, threads) in [1u32, 4].into_iter().enumerate() {
                 let cases = cfg.t(300, 6000);
                 let seed = mix(cfg.seed ^ (0xc02 + i as u64 * 977 + <$K>::NAME.len() as u64 * 31 + <$K>::NAME.as_bytes()[1] as u64));
@@ -377,7 +387,7 @@ pub fn run(cfg: &Cfg) -> i32 {
         &total,
         Meta {
             level: "exploration",
-            rule: "exhaustive: all 256 three-variable functions (pairs x 8 binary operators, not, ite triples [all in thorough; in quick all triples with a constant/equal/complementary operand plus a seeded 1/64 sample], eval on all 8 assignments, cofactors, constants, variables) under all 6 variable orders x {BDD,BCDD,ZBDD} x thread/split-depth configurations; random operands over 4..8 variables (proptest) compared by full truth table through an independent node-by-node interpreter. Non-trivial = both/all operands non-constant, distinct, jointly depending on >=2 (ite: 3) variables, in a manager whose level order differs from the variable numbering; every counted tuple (kind, order, config, operator, operands) is distinct by construction.",
+            rule: "exhaustive: all 256 three-variable functions (pairs x 8 binary operators, not, ite triples [all in thorough; in quick all triples with a constant/equal/complementary operand plus a seeded 1/64 sample], eval on all 8 assignments, cofactors, constants, variables) under all 6 variable orders x {BDD,BCDD,ZBDD} x thread/split-depth configurations; random operands over 4..8 variables (proptest) compared by full truth table through an independent node-by-node interpreter; eval() on wide managers: 9..200 variables (incl. 63/64/65/127/128/129) under random orders, functions of <= 5 variables that include the bottom level, block-boundary levels (7/8, 15/16, 31/32, 63/64) and the largest variable number, evaluated with shuffled complete argument lists, lists with repeated variables (documented: the last value counts), lists that omit a support variable and lists naming only support variables (documented: a decision variable without a value is false), non-trivial there = more than 16 variables. Non-trivial = both/all operands non-constant, distinct, jointly depending on >=2 (ite: 3) variables, in a manager whose level order differs from the variable numbering; every counted tuple (kind, order, config, operator, operands) is distinct by construction.",
             assumptions: vec![
                 "oracle = bitwise operations on u8/u64 truth tables written in the harness".into(),
                 "expected handles fns[t] are validated against the independent interpreter before use; a result equal (==) to fns[expected] is accepted, otherwise its table is recomputed by the interpreter".into(),
